@@ -264,6 +264,15 @@ class BodyGen:
                     out += self.expr(self.globals[i][0], d - 1) + [("global.set", i)]
             elif k < 0.85:
                 out += ["nop"]
+            elif k < 0.89 and deep:
+                # statically unreachable code (stack-polymorphic): a terminator followed by instructions that stay valid there
+                term = r.choice([["unreachable"], [("br", 0)], [("i32.const", 0), ("br_table", [0], 0)]])
+                dead = []
+                for _ in range(r.choice([1, 1, 2, 4])):
+                    dead += r.choice([["return"], ["drop"], ["i32.add", "drop"], [("br", 0)], ["unreachable"], ["select", "drop"], ["nop"],
+                                      [("i64.const", 1), "i64.add", "drop"], ["i32.eqz", ("br_if", 0)], ["f64.neg", "drop"], ["return", "return"],
+                                      [("block",), "end"], [("i32.const", 1), ("if",), "nop", "end"], [("loop",), ("br", 1), "end"]])
+                out += [("block",)] + self.stmts(r.randrange(0, 2), d - 1) + term + dead + ["end"]
             else:
                 t = r.choice([I32, I64, F32, F64])
                 out += self.expr(t, d) + ["drop"]
